@@ -38,6 +38,14 @@ CHECKS = {
          "All glob patterns over a 6-letter alphabet up to length 3 (thorough 4) x all values over a 7-letter alphabet up to length 4 (thorough 5) in whole-value and word-boundary mode against a dynamic-programming glob matcher; random longer patterns; random rulesets x events x contexts against a reference implementation of flattening, every condition kind and first-enabled-match ordering; conditions are aimed at properties the event really has.",
          "Trusted: the hand-written reference (glob, word-boundary rule = not both neighbours are word characters, flattening, rule order), std's Unicode lower-casing. Spec-silent corners (empty word-mode patterns, glob display names, notification keys other than room) are counted, not asserted.",
          "DESIGN.md section 5 C12"),
+ "C14": ("vf-html", "property-based testing (proptest) and bounded-exhaustive enumeration: grammar-generated HTML x configurations against a policy-driven reference cleaner, html5gum token view and re-parse cross-view",
+         "HTML generated from a grammar over allowed / deprecated / forbidden / foreign elements with attributes in arbitrary order, every URI scheme spelling, comments, malformed markup and nesting up to 320 levels, under strict / compat mode with and without reply-fallback removal and under builder configurations held as plain data; the sanitized DOM must equal the result of a reference cleaner driven by a policy derived independently from the configuration (strict lists transcribed from the spec), and the serialised output is tokenised by html5gum and re-parsed, both views checked against the policy. Every URI value x {a/href, img/src} x 0-2 companion attributes in both orders is enumerated exhaustively.",
+         "Trusted: html5gum (independent tokenizer), html5ever as the parser of the INPUT (the sanitizer, not the parser, is under test), the hand-written policy. Depth is counted in the input tree; scheme rules apply to an attribute's local name; token view only where no raw-text/foreign element may survive.",
+         "DESIGN.md section 5 C14"),
+ "C15": ("vf-html", "property-based testing (proptest): idempotence metamorphic relation, allow-list grammar documents as fixed points, documented rewriting of deprecated constructs",
+         "For the C14 inputs in strict/compat mode (with/without reply-fallback removal) sanitize(out) must equal parse-and-reserialise(out) and sanitizing one document object twice must equal once; documents generated from the allow-list grammar (parser-normal by construction, every allowed attribute, allowed schemes/classes, up to 70 extra nesting levels, optional mx-reply) must come back byte-identical; font/strike documents must equal their documented rewriting.",
+         "Trusted: html5ever parse/serialise as the normaliser on both sides of the comparison. Generated clean documents that are not parser-normal are counted as generator misses (0 observed).",
+         "DESIGN.md section 5 C15"),
  "C13": ("vf-core", "model-based testing: bounded-exhaustive enumeration of operation sequences plus proptest random sequences against a Vec-per-kind placement model",
          "Every operation sequence up to length 2 over the full alphabet (insert with every after/before anchor pair, remove, set_enabled, set_actions, reserved ids, default-rule targets) from the empty, the server-default and every populated arrangement of up to three rules, deeper sequences over a reduced alphabet, and random sequences up to 40 operations, each step compared with a model of the documented placement semantics; errors must leave the ruleset unchanged; panics are caught.",
          "Trusted: rustc/std, proptest, the hand-written model (documented semantics in rustdoc of Ruleset::insert). Self-anchored inserts and overrides without a leading master rule are only partially asserted.",
